@@ -2,6 +2,14 @@
 #include "rt.h"
 #include "bloc_exc.h"
 #include TYPES_H
+/* library containers a translation unit does not instantiate have no mirror; the abstract model only needs their size
+ * (libstdc++ ABI: std::vector 24 bytes, std::string 32 bytes) */
+#ifndef G2C_HAVE_vec_char
+struct vec_char { _Alignas(8) unsigned char __opaque[24]; };
+#endif
+#ifndef G2C_HAVE_std_string
+struct std_string { _Alignas(8) unsigned char __opaque[32]; };
+#endif
 #include "vocab.h"
 #include "bloc_globals.h"
 #include "iface.h"
